@@ -40,9 +40,18 @@ type callInfo struct {
 func limitsBody(c *runner.Ctx) {
 	d := newMDB()
 	d.seqFn = simrt.Seq
+	// tenant ids may be beyond 32 bits: a narrower integer that equals the
+	// truncated id is another tenant
+	bigOrgs := c.Choose(3, "tenant-ids-beyond-32-bits") == 1
+	orgID := func(k int64) int64 {
+		if bigOrgs {
+			return 1<<32 + k
+		}
+		return k
+	}
 	t := d.addTable("items", itemCols, []string{"org_id", "region", "id"})
 	for i := 0; i < 6; i++ {
-		t.rows = append(t.rows, mrow{"org_id": int64(1 + i%3), "region": "eu", "id": int64(i + 1), "name": fmt.Sprintf("n%d", i), "qty": int64(i)})
+		t.rows = append(t.rows, mrow{"org_id": orgID(int64(1 + i%3)), "region": "eu", "id": int64(i + 1), "name": fmt.Sprintf("n%d", i), "qty": int64(i)})
 	}
 	// a limit may name two columns: org_id and region (every row is in "eu")
 	twoCol := c.Choose(3, "two-column-limit") == 1
@@ -187,7 +196,7 @@ func limitsBody(c *runner.Ctx) {
 	}
 	var handles []*handle
 	for i := 0; i < nHandles; i++ {
-		org := int64(1 + c.Choose(3, "handle-org"))
+		org := orgID(int64(1 + c.Choose(3, "handle-org")))
 		limits[org] = true
 		h := &handle{org: org}
 		var err error
@@ -241,7 +250,7 @@ func limitsBody(c *runner.Ctx) {
 		ci := &callInfo{idx: i, org: h.org}
 		// how the call relates to the limit
 		ci.verdict = []string{"comply", "comply", "violate", "violate", "either"}[c.Choose(5, "verdict")]
-		other := h.org%3 + 1
+		other := orgID((h.org&0xffff)%3 + 1)
 		var orgVal interface{} = h.org
 		var rowOrg = h.org
 		var regionVal interface{} = "eu"
@@ -251,6 +260,9 @@ func limitsBody(c *runner.Ctx) {
 			nHow = 5
 		}
 		violateHow := c.Choose(nHow, "violate-how")
+		if bigOrgs && c.Choose(4, "narrow-integer") == 1 {
+			violateHow = 9
+		}
 		switch ci.verdict {
 		case "violate":
 			switch violateHow {
@@ -262,6 +274,9 @@ func limitsBody(c *runner.Ctx) {
 				// another shard's value as the database driver would also accept
 				// it: bytes (MySQL compares '2' with the integer column)
 				orgVal = []byte(fmt.Sprint(other))
+			case 9:
+				// the tenant id cut down to 32 bits: another (small) id
+				orgVal = int32(h.org)
 			case 3:
 				// only the second limit column is wrong
 				regionVal = "us"
@@ -269,14 +284,14 @@ func limitsBody(c *runner.Ctx) {
 				regionVal = nil // the second limit column is missing from the filter
 			}
 			rowOrg = other
-			if violateHow >= 3 {
+			if violateHow == 3 || violateHow == 4 {
 				rowOrg, rowRegion = h.org, "us"
 			}
 		case "either":
 			orgVal = int(h.org) // right value, different Go type
 		}
-		ci.op = []string{"Query", "QueryRow", "Count", "InsertRow", "UpsertRow", "UpdateRow", "DeleteRow", "InsertRows", "UpsertRows"}[c.Choose(9, "op")]
-		isRead := ci.op == "Query" || ci.op == "QueryRow" || ci.op == "Count"
+		ci.op = []string{"Query", "QueryRow", "Count", "InsertRow", "UpsertRow", "UpdateRow", "DeleteRow", "InsertRows", "UpsertRows", "BaseQueryTwice"}[c.Choose(10, "op")]
+		isRead := ci.op == "Query" || ci.op == "QueryRow" || ci.op == "Count" || ci.op == "BaseQueryTwice"
 		if !isRead && ci.verdict == "either" {
 			ci.verdict = "comply"
 		}
@@ -360,6 +375,31 @@ func limitsBody(c *runner.Ctx) {
 				}
 				if err == sql.ErrNoRows || (err != nil && strings.Contains(err.Error(), "no more than 1")) {
 					err = nil
+				}
+			case "BaseQueryTwice":
+				// one BaseSelectQuery value used twice (Schema.MakeSelect +
+				// DB.BaseQuery): first with another tenant's filter, which the
+				// handle refuses, then with the call's own filter
+				c.Probe("base-select-query-reused")
+				first := sqlgen.Filter{"org_id": other}
+				if twoCol {
+					first["region"] = "eu"
+				}
+				bq, berr := schema.MakeSelect(&rows, first, nil)
+				if berr != nil {
+					c.Violate("make-select-failed", "%v", berr)
+					return
+				}
+				if _, ferr := h.db.BaseQuery(ctx, bq); ferr == nil {
+					c.Violate("non-complying-call-accepted/BaseQuery", "call %d: BaseQuery with filter %v on a handle limited to org_id=%d returned no error", ci.idx, first, h.org)
+				}
+				bq.Filter = filter
+				var res []interface{}
+				res, err = h.db.BaseQuery(ctx, bq)
+				for _, x := range res {
+					if it, ok := x.(*Item); ok {
+						rows = append(rows, it)
+					}
 				}
 			case "Count":
 				_, err = h.db.Count(ctx, &Item{}, filter)
